@@ -6,23 +6,21 @@
 (* namings.  Every rendering is printed for replay into the real parser,   *)
 (* which must produce exactly the tree.                                    *)
 (***************************************************************************)
-EXTENDS Grammar, Interp, Json, SequencesExt
+EXTENDS Grammar, ProgFamilies, Json
 
 FA == INSTANCE Faults
+LI == INSTANCE Lint
 
-CONSTANT Family, Tier
+CONSTANT Family
 VARIABLE c
 
-N(k) == Lit(IntV(k))
-S(t) == Lit(Str(t))
 X == Var("x")
 Y == Var("y")
 Z == Var("z")
-Put(e, n) == SAssign(0, Var(n), "none", <<e>>)
-Say(e) == SSay(0, e)
 B(op, l, r) == Bin(op, l, <<r>>)
 
-AbstractNames == <<"x", "y", "z", "f", "g", "p", "q", "r">>
+AbstractNames == <<"x", "y", "z", "f", "g", "p", "q", "r", "fun", "k", "loc", "h", "i", "t", "v", "nope", "pair", "a", "b", "dup", "gcd", "mm", "nn",
+                   "ff", "inner", "outer", "helper", "arr", "j", "grow", "d", "c">>
 Naming(off) == LET sc == NMS!Scheme(AbstractNames, off) IN
                [n \in {AbstractNames[i] : i \in 1..Len(AbstractNames)} |-> sc[CHOOSE i \in 1..Len(AbstractNames) : AbstractNames[i] = n]]
 
@@ -148,6 +146,32 @@ CliCases(z) == { LET nm == Naming(0) r == Render(<<>>, nm, cc.tree) fin == RunAl
 LoadCli == /\ c.k = "init" /\ Family = "cli"
            /\ c' \in CliCases(0)
 
+(* end to end (text -> front end -> interpreter / linter): the programs of the interpreter families that some text denotes, *)
+(* rendered canonically and under pseudo-random full tapes; the model's run and the model's lint report come with the text  *)
+E2ETrees(z) == { p \in CFPrograms(z) \cup FNPrograms(z) \cup MUPrograms(z) \cup (IF Tier = "quick" THEN {} ELSE ARPrograms(z)) : ProgramOK(p) }
+E2EIO(z) == { cc \in { [tree |-> <<p>>, inp |-> i] : p \in IOProgs, i \in IOInputs } : ProgramOK(cc.tree) }
+MapLines(evs, lines) == [n \in 1..Len(evs) |-> [evs[n] EXCEPT !.line = lines[evs[n].line]]]
+E2ECase(tree, inp, tp, off) ==
+  LET nm == Naming(off)
+      numbered == Number(tree)
+      r == Render(tp, nm, numbered)
+      fin == RunAll(Init0(numbered, inp, -1, 0))
+      rep == LI!Report(numbered)
+  IN [k |-> "e2e", text |-> r.text, naming |-> nm, tape |-> tp, lines |-> r.lines, inp |-> inp,
+      st |-> fin.st, out |-> fin.out, rd |-> fin.rd, evs |-> MapLines(fin.evs, r.lines),
+      report |-> [n \in 1..Len(rep) |-> [rep[n] EXCEPT !.line = r.lines[rep[n].line]]]]
+E2ETapes == {<<>>} \cup MixedTapes(60) \cup { Mixed(64, ab[1], ab[2]) : ab \in {<<29, 4>>, <<31, 8>>, <<37, 16>>, <<41, 1>>, <<43, 6>>} }
+E2ETapesFew == {<<>>, Mixed(64, 5, 11)}
+(* picking a case is cheap and sequential; expanding it (render, run, lint) is a separate step so that all workers share it *)
+LoadE2E == /\ c.k = "init" /\ Family = "e2e"
+           /\ \/ \E t \in { p \in FNPrograms(0) \cup MUPrograms(0) \cup PRPrograms(0) : ProgramOK(p) }, tp \in E2ETapes, off \in {0, 12, 24} :
+                    c' = [k |-> "e2epick", tree |-> t, inp |-> <<>>, tape |-> tp, off |-> off]
+              \/ \E t \in { p \in CFPrograms(0) \cup (IF Tier = "quick" THEN {} ELSE ARPrograms(0)) : ProgramOK(p) },
+                    tp \in (IF Tier = "quick" THEN E2ETapesFew ELSE E2ETapes), off \in (IF Tier = "quick" THEN {0} ELSE {0, 12, 24}) :
+                    c' = [k |-> "e2epick", tree |-> t, inp |-> <<>>, tape |-> tp, off |-> off]
+              \/ \E cc \in E2EIO(0), tp \in E2ETapesFew : c' = [k |-> "e2epick", tree |-> cc.tree, inp |-> cc.inp, tape |-> tp, off |-> 0]
+ExpandE2E == c.k = "e2epick" /\ c' = E2ECase(c.tree, c.inp, c.tape, c.off)
+
 (* C13: every fault of the catalogue in every context; letter case varied as a whole *)
 FaultCases(z) ==
   UNION { UNION { { [k |-> "fault", kind |-> FA!All[g][1], fault |-> FA!All[g][2][i],
@@ -165,7 +189,7 @@ LoadOpen == /\ c.k = "init" /\ Family = "poetic"
 Init == c = [k |-> "init"]
 LoadFaults == /\ c.k = "init" /\ Family = "fault"
               /\ c' \in FaultCases(0)
-Load == /\ c.k = "init" /\ Family \notin {"fault", "cli"}
+Load == /\ c.k = "init" /\ Family \notin {"fault", "cli", "e2e"}
         /\ \E t \in Trees(0), off \in NamingOffsets : c' = [k |-> "tree", tree |-> t, off |-> off]
 Vary == /\ c.k = "tree"
         /\ LET nm == Naming(c.off)
@@ -175,13 +199,16 @@ Vary == /\ c.k = "tree"
                 c' = [k |-> "text", tree |-> c.tree, naming |-> nm, tape |-> tp, text |-> r.text, lines |-> r.lines]
 Strip == /\ c.k = "text" /\ c.tape = <<>>          \* the canonical rendering also without its trailing line ends
          /\ c' = [c EXCEPT !.k = "stripped", !.text = StripTrailingNl(c.text)]
-Next == Load \/ LoadFaults \/ LoadOpen \/ LoadCli \/ Vary \/ Strip
+Next == Load \/ LoadFaults \/ LoadOpen \/ LoadCli \/ LoadE2E \/ ExpandE2E \/ Vary \/ Strip
 
 PoeticDigits(t) ==      \* the digits the first statement's poetic literal spells (C11), when it has one
   LET s == t[1][1]
       e == IF s.s = "pnum" THEN s.e ELSE IF s.s = "rock" /\ s.vals # <<>> THEN s.vals[1] ELSE ENone
   IN IF e.e = "plit" THEN PO!Digits(e.elems) ELSE [ip |-> <<>>, fp |-> <<>>]
-Emit == c.k \in {"init", "tree"} \/
+Emit == c.k \in {"init", "tree", "e2epick"} \/
+        (c.k = "e2e" /\ PrintT(<<"R", ToJson([fam |-> "e2e", text |-> c.text, naming |-> c.naming, tape |-> c.tape, lines |-> c.lines,
+                                              inp |-> c.inp, budget |-> -1, failAt |-> 0, st |-> c.st, out |-> c.out, rd |-> c.rd,
+                                              evs |-> c.evs, report |-> c.report])>>)) \/
         (c.k = "cli" /\ PrintT(<<"R", ToJson([fam |-> "cli", text |-> c.text, inp |-> c.inp, out |-> c.out, st |-> c.st])>>)) \/
         (c.k = "saysopen" /\ PrintT(<<"R", ToJson([fam |-> "saysopen", text |-> c.text, str |-> c.str])>>)) \/
         (c.k = "fault" /\ PrintT(<<"R", ToJson([fam |-> "fault", kind |-> c.kind, fault |-> c.fault, text |-> c.text, line |-> c.line])>>)) \/
